@@ -60,6 +60,12 @@ type Case struct {
 	Note    string              `json:"note,omitempty"`   // raw cases: what is being probed
 	Expect  string              `json:"expect,omitempty"` // raw cases: expected output (+ "!status: n", "!error: …")
 	Sp      *SpProg             `json:"sp,omitempty"`     // class "special" (special.go): its own program shape and raw files
+	Vars    []string            `json:"vars,omitempty"`   // Config.Vars of the execution: name, value, … (v0-v2, FS, FILENAME)
+	// class "history" (history.go): ONE interp.Interpreter performs the executions of Hist in order; Of is the class of the
+	// shared program (the fields above describe it; Args / Stdin / Vars are then those of the execution being looked at)
+	Of   string   `json:"of,omitempty"`
+	Hist []*HExec `json:"hist,omitempty"`
+	At   int      `json:"failing_execution,omitempty"` // 1-based, in a reported failure
 }
 
 // noModel: raw AWK programs are outside the rule language of the Lean machine
@@ -148,9 +154,28 @@ func hexList(xs []string, b *strings.Builder) {
 	}
 }
 
+// leanReq: the request for the Lean machine. leanReqV = the `runv` form (Config.Vars applied before BEGIN; the answer is
+// prefixed with what the run left open), used by the histories stream.
 func (cs *Case) leanReq() string {
+	if len(cs.Vars) > 0 {
+		panic("a case with Config.Vars needs leanReqV")
+	}
+	return cs.leanReq1(false)
+}
+
+func (cs *Case) leanReqV() string { return cs.leanReq1(true) }
+
+func (cs *Case) leanReq1(withVars bool) string {
 	var b strings.Builder
-	b.WriteString("run 100000 A ")
+	if withVars {
+		fmt.Fprintf(&b, "runv 100000 I %d ", len(cs.Vars)/2)
+		for _, x := range cs.Vars {
+			b.WriteString(vh.HxS(x) + " ")
+		}
+		b.WriteString("A ")
+	} else {
+		b.WriteString("run 100000 A ")
+	}
 	hexList(cs.Args, &b)
 	b.WriteString("S ")
 	hexList(cs.Stdin, &b)
